@@ -34,6 +34,9 @@ def setSkip : Expr → Expr
   | .backtrack n => .backtrack n
   | .fail => .fail
   | .py v => .py v
+  | .tagged e t => .tagged (setSkip e) t
+  | .optable pre o m post inf =>
+    .optable (setSkipList pre) (setSkip o) (setSkipList m) (setSkipList post) (setSkipList inf)
 def setSkipList : List Expr → List Expr
   | [] => []
   | x :: xs => setSkip x :: setSkipList xs
